@@ -64,7 +64,7 @@ class BaseEvolutionOperations(object):
     mergeable_ops = (
         'add_column',
         'change_column',
-        'change_meta'
+        'change_meta',
         'delete_column',
     )
 
